@@ -106,6 +106,16 @@ theorem marginal_rank_eq_dim (Pb : Matrix b b K) (Binv : Matrix b b K) (h1 : (Pb
   have h' : (Pbᵀ * Binv) * Pb = 1 := (_root_.mul_eq_one_comm).mp h
   simp [proj, h']
 
+/-- the hypotheses of `marginal_sqrt_form_*` are satisfiable (Pb = [1 0], Binv = 1). -/
+example : ∃ (Pb : Matrix (Fin 1) (Fin 2) ℚ) (Binv : Matrix (Fin 1) (Fin 1) ℚ),
+    Binvᵀ = Binv ∧ (Pb * Pbᵀ) * Binv = 1 := by
+  refine ⟨Matrix.of fun _ j => if j = 0 then 1 else 0, 1, by simp, ?_⟩
+  ext i j
+  have hi : i = 0 := Subsingleton.elim _ _
+  have hj : j = 0 := Subsingleton.elim _ _
+  subst hi; subst hj
+  simp [Matrix.mul_apply]
+
 /-- **log_normalizer_formula**, determinant: with a lower-triangular `L Lᵀ = Λ`,
     `det Λ = (∏ Lᵢᵢ)²`, i.e. `½ log det Λ = Σ log Lᵢᵢ` (`_log_det_tri`). -/
 theorem log_normalizer_det [LinearOrder n] (L Λ : Matrix n n K) (hL : L * Lᵀ = Λ)
